@@ -116,4 +116,23 @@ func init() {
 		Assumptions: []string{"oracle = the real rsc.io/binaryregexp matcher run on buffers[dir][offset:] (the plain scan)", "sync.Pool modelled as always empty"},
 		Outside: []string{"buffers longer than maxlen", "variables bound by captures / sub-query variable substitution", "expressions outside the enumerated grammar"},
 	}
+
+	cv := "internal/index/converters"
+	registry["C15"] = CheckSpec{Property: "C15",
+		Harnesses: []HarnessSpec{
+			{Pkg: cv, Func: "ZZ_C15_VarInt", Quick: tier(nil), Bounds: "every uint64"},
+			{Pkg: cv, Func: "ZZ_C15_VarBytes", Quick: tier(map[string]int{"bytes": 4}), Thorough: tier(map[string]int{"bytes": 6}), Bounds: "every byte string of 0..bytes symbolic bytes"},
+			{Pkg: cv, Func: "ZZ_C15_String", Quick: tier(map[string]int{"bytes": 3}), Thorough: tier(map[string]int{"bytes": 5})},
+			{Pkg: cv, Func: "ZZ_C15_Truncated", Quick: tier(nil)},
+			{Pkg: cv, Func: "ZZ_C15_Cache", Desc: "rich chunk lists, 2 operations", Quick: tier(map[string]int{"ops": 2, "chunks": 2, "chunklen": 2, "ctypes": 2, "dts": 1}), Thorough: tier(map[string]int{"ops": 2, "chunks": 2, "chunklen": 2, "ctypes": 3, "dts": 3}),
+				Bounds: "histories of `ops` operations from {store, invalidate, reset, close+reopen} over 2 stream ids; chunk lists of 1..chunks chunks (direction, length 1..chunklen symbolic bytes, content type, time offset chosen)"},
+			{Pkg: cv, Func: "ZZ_C15_Cache", Desc: "thin chunk lists, 4 operations", Quick: tier(map[string]int{"ops": 4, "chunks": 1, "chunklen": 1, "ctypes": 1, "dts": 1, "forcecompaction": 1}), Thorough: tier(map[string]int{"ops": 5, "chunks": 1, "chunklen": 1, "ctypes": 1, "dts": 1, "forcecompaction": 1}),
+				Bounds: "histories of 4 (5) operations incl. a store with forced in-session compaction (trigger counter raised artificially, state otherwise real)"},
+			{Pkg: cv, Func: "ZZ_C15_Cut", Quick: tier(map[string]int{"chunks": 1, "chunklen": 2, "ctypes": 2, "dts": 2}), Thorough: tier(map[string]int{"chunks": 2, "chunklen": 2, "ctypes": 3, "dts": 3}),
+				Bounds: "two records, the file cut at every byte position inside the second record"},
+			{Pkg: cv, Func: "ZZ_C15_KF_InvalidateReopen", Quick: tier(nil), Desc: "witness of a known finding"},
+		},
+		Assumptions: []string{"in-memory file system model behind os.File (DESIGN.md 2.4); encoding/binary as a typed codec", "chunks are non-empty; chunk times are non-decreasing (t0 + chosen offsets); content types from a fixed set", "oracle: a Go map from stream id to the last stored chunk list"},
+		Outside: []string{"the >= 16 MiB in-session compaction trigger inside setData (compaction is reached through reopen)", "concurrent readers", "more than 2 stream ids / 2 chunks per list in the rich harness"},
+	}
 }
